@@ -8,6 +8,7 @@ import RapidProofs.Contracts
 import RapidModel.Generated.Thresholds
 import RapidProofs.Reach
 import RapidProofs.ReachFloat
+import RapidProofs.TranslatedProgEq
 
 namespace Rapid.C18
 
@@ -99,5 +100,29 @@ example :
     FloatTarget fmt64 0x7FEFFFFFFFFFFFFF 0x7FF0000000000000 0x7FF0000000000000 ∧
     FloatTarget fmt32 0 0x3F800000 1 := by
   refine ⟨?_, ?_, ?_, ?_, ?_, ?_⟩ <;> (refine ⟨⟨by decide, by decide, by decide⟩, by decide, by decide, by decide⟩)
+
+/-! ### the same, for the source
+
+  `genIntRange` and `genUintRange` as translated from /repo on every run (RapidModel/Generated/Translated.lean)
+  have the runs of the model (RapidProofs/TranslatedProgEq.lean), for every float evaluator that agrees
+  with the measured thresholds: reachability is a statement about the source. -/
+
+theorem source_every_small_int_reachable (fe : Go.FEval) (H : FloatFacts fe Rapid.Generated.ft)
+    (a b c : Int) (hac : a ≤ c) (hcb : c ≤ b) (hsm : -2 ^ 40 ≤ a ∧ b ≤ 2 ^ 40) (hw : b - a < 4096) (fuel : Nat) :
+    ReachesVal (fun (k : Int64 × Bool × Bool → Prog) =>
+      Translated.genIntRange fe (Int64.ofInt a) (Int64.ofInt b) true (fuel + 1) (fun i l r => k (i, l, r))) (Int64.ofInt c, false, false) :=
+  ReachesVal.of_runEq (fun k => tr_genIntRange fe _ H _ _ _ _ _ (fun _ _ _ => RunEq.refl _))
+    (every_small_int_reachable a b c hac hcb hsm hw fuel)
+
+/-- every value of an unsigned range is handed on by the unbiased `genUintRange` of the source -/
+theorem source_every_uint_reachable_unbiased (fe : Go.FEval) (H : FloatFacts fe Rapid.Generated.ft)
+    (min max v : UInt64) (h1 : min ≤ v) (h2 : v ≤ max) (fuel : Nat) :
+    ReachesVal (fun (k : UInt64 × Bool × Bool → Prog) =>
+      Translated.genUintRange fe min max false (fuel + 1) (fun u l r => k (u, l, r))) (v, false, false) :=
+  ReachesVal.of_runEq (fun k => tr_genUintRange fe _ H _ _ _ _ _ _ (fun _ _ _ => RunEq.refl _))
+    (uintRangeUnbiased_reaches Rapid.Generated.ft min max v h1 h2 fuel)
+
+/-- the hypothesis on the evaluator can be met -/
+example : ∃ fe, FloatFacts fe Rapid.Generated.ft := ⟨_, floatFacts_feOf _ (by decide +kernel)⟩
 
 end Rapid.C18
